@@ -302,6 +302,9 @@ def exploit_perm_sym(expr: e.Expr, target_indices: str | None = None,
 
     ret = {}
     removed_terms = set()
+    # terms that have already been added to the result: they must not be
+    # generated a second time by permuting another term.
+    kept_terms = set()
     for term_idx_list in filtered_terms.values():
         # term is unique -> nothing to compare with
         # can not map this term onto any other terms
@@ -330,6 +333,7 @@ def exploit_perm_sym(expr: e.Expr, target_indices: str | None = None,
         for term_i in term_idx_list:
             if term_i in removed_terms:
                 continue
+            kept_terms.add(term_i)
             term: e.Expr = terms[term_i]
             found_sym = []
             for perms, factor in symmetry.items():
@@ -353,7 +357,8 @@ def exploit_perm_sym(expr: e.Expr, target_indices: str | None = None,
                     raise ValueError(f"Invalid sym factor {factor}.")
                 # perm term != term -> compare to other terms
                 for other_term_i in term_idx_list:
-                    if term_i == other_term_i or other_term_i in removed_terms:
+                    if other_term_i in kept_terms or \
+                            other_term_i in removed_terms:
                         continue
                     # compare the terms: again only look for the desired
                     # symmetry
